@@ -75,6 +75,7 @@ type exerciser struct {
 	parsed  reflect.Value
 	parseEr error
 	ran     bool
+	ranKey  string
 }
 
 func (c *Ctx) newExerciser() *exerciser {
@@ -82,6 +83,7 @@ func (c *Ctx) newExerciser() *exerciser {
 	e.api = c.NewAPI(func(op *Op) func(ctx context.Context, req reflect.Value) reflect.Value {
 		return func(ctx context.Context, req reflect.Value) reflect.Value {
 			e.ran = true
+			e.ranKey = op.Key
 			e.parsed, e.parseEr = Parse(req)
 			return e.next
 		}
@@ -215,11 +217,8 @@ func headerSafe(s string) string {
 			b.WriteByte(' ')
 		}
 	}
-	out := strings.TrimSpace(b.String())
-	if out == "" {
-		out = "v"
-	}
-	return out
+	// an empty field value is legal HTTP and stays empty
+	return strings.TrimSpace(b.String())
 }
 
 // ---------- C02 ---------------------------------------------------------
@@ -566,6 +565,22 @@ func headerMatches(v reflect.Value, texts []string, s oas.M, doc *oas.Doc) strin
 
 // ---------- C09 / C10 ---------------------------------------------------
 
+// strictBody behaves like the body of a real HTTP response: reading after
+// Close fails.
+type strictBody struct {
+	r      io.Reader
+	closed bool
+}
+
+func (b *strictBody) Read(p []byte) (int, error) {
+	if b.closed {
+		return 0, fmt.Errorf("http: read on closed response body")
+	}
+	return b.r.Read(p)
+}
+
+func (b *strictBody) Close() error { b.closed = true; return nil }
+
 type tap struct {
 	h       http.Handler
 	lastReq *http.Request
@@ -591,7 +606,7 @@ func (t *tap) do(r *http.Request) (*http.Response, error) {
 		w.Frozen = http.Header{}
 		w.Status = 200
 	}
-	return &http.Response{StatusCode: w.Status, Status: strconv.Itoa(w.Status), Header: w.Frozen.Clone(), Body: io.NopCloser(bytes.NewReader(w.Body.Bytes())), Request: r, Proto: "HTTP/1.1", ProtoMajor: 1, ProtoMinor: 1}, nil
+	return &http.Response{StatusCode: w.Status, Status: strconv.Itoa(w.Status), Header: w.Frozen.Clone(), Body: &strictBody{r: bytes.NewReader(w.Body.Bytes())}, Request: r, Proto: "HTTP/1.1", ProtoMajor: 1, ProtoMinor: 1}, nil
 }
 
 func (c *Ctx) newClient(t *tap) (reflect.Value, bool) {
@@ -702,7 +717,22 @@ func modeClient(c *Ctx) {
 			if d := diffParams(params, e.parsed, rawBody); d != "" {
 				c.Viol("request-differs", "handler's parsed parameters differ from what the caller sent: "+stripIndex(d), in, "equal", map[string]string{"difference": d, "url": urlOf(t.lastReq), "parsed": trunc(dumpValue(e.parsed), 400)})
 			}
-			if msgs := c.validateWire(op, t.lastReq, t.bodyIn, rr, jv); len(msgs) > 0 {
+			msgs := c.validateWire(op, t.lastReq, t.bodyIn, rr, jv)
+			if c.Kin != nil {
+				kerr := c.Kin.ValidateRequest(t.lastReq, c.Base, t.bodyIn)
+				switch {
+				case kerr == nil && len(msgs) == 0:
+					c.Stat("second_opinion_agree_valid", 1)
+				case kerr != nil && len(msgs) > 0:
+					c.Stat("second_opinion_agree_invalid", 1)
+				case kerr != nil:
+					c.Stat("second_opinion_only_kin_rejects", 1)
+					c.Note("kin-openapi rejects, wire validator accepts: " + op.Key + " " + urlOf(t.lastReq) + ": " + trunc(kerr.Error(), 200))
+				default:
+					c.Stat("second_opinion_only_mine_rejects", 1)
+				}
+			}
+			if len(msgs) > 0 {
 				c.Viol("wire-invalid", "the request on the wire is not valid for the operation: "+msgs[0], in, "valid request", map[string]any{"url": urlOf(t.lastReq), "headers": t.lastReq.Header, "problems": msgs})
 			}
 			if i == 0 {
@@ -730,8 +760,15 @@ func modeClient(c *Ctx) {
 				e.next = v
 				t.stub = nil
 				in := fmt.Sprintf("%s <- %s %s", op.Key, ri.T.Name(), trunc(dumpValue(v), 300))
+				e.ranKey = ""
 				res, err, pv := callClient(cl, op, canonParams)
 				c.Stat("client_responses", 1)
+				if e.ranKey != "" && e.ranKey != op.Key {
+					// the canonical path values fit a more literal template: ambiguous spec, no verdict
+					c.Stat("ambiguous_path_value", 1)
+					canonParams = c.genParams(&Gen{Rng: c.Rng, Doc: c.Doc}, op, nil)
+					continue
+				}
 				if pv != nil {
 					c.Viol("panic", "client call panicked: "+firstLine(fmt.Sprint(pv)), in, nil, nil)
 					continue
